@@ -41,6 +41,10 @@ def pySub (s t : List α) : List α := s.filter (fun x => !decide (x ∈ t))
 def pyBool (s : List α) : Bool := !s.isEmpty
 /-- `len(s)` -/
 def pyLen (s : List α) : Nat := s.length
+/-- `s.isdisjoint(t)` -/
+def pyIsDisjoint (s t : List α) : Bool := (pyAnd s t).isEmpty
+/-- `s.issubset(t)`, `s <= t` -/
+def pyIsSubset (s t : List α) : Bool := (pySub s t).isEmpty
 
 /-- the celtypes wrappers around the native results (which CEL class a result carries is C13's subject) -/
 def celBool (b : Bool) : Bool := b
@@ -286,6 +290,21 @@ def sizeParseCidr : Cidr → Option Nat
   | .net n => some n.len
   | _ => none
 
+/-- what `size_parse_cidr` asks of the value `parse_cidr` returned: its truth value (only `None` is false: neither
+`ipaddress` networks nor addresses define `__bool__`/`__len__`), `is None`, `isinstance(_, IPv4Network)`, `.prefixlen` -/
+def cidrTruthy : Cidr → Bool
+  | .none => false
+  | _ => true
+def cidrIsNone : Cidr → Bool
+  | .none => true
+  | _ => false
+def cidrIsNet : Cidr → Bool
+  | .net _ => true
+  | _ => false
+def cidrPrefixlen : Cidr → PyM Nat
+  | .net n => .ok n.len
+  | _ => .error .attributeError
+
 /-! ## versions -/
 
 /-- `packaging.version._cmpkey`: the release segment without trailing zeros -/
@@ -329,6 +348,20 @@ def key {V : Type} : List (Tag V) → Str → PyM (Option V)
         | none => .error .keyError
         | some v => .ok (some v)
       else key ts target
+
+/-- a `for` loop over a list with an early `return`, or a lazy generator expression consumed by a single `next()`:
+the items are visited from the left, the first one satisfying `pred` yields `res`, none yields `dflt`; an
+exception raised by `pred`/`res` propagates, later items are never looked at -/
+def pyFirst {α β : Type} (pred : α → PyM Bool) (res : α → PyM β) (dflt : PyM β) : List α → PyM β
+  | [] => dflt
+  | x :: xs => do
+    if (← pred x) then res x else pyFirst pred res dflt xs
+
+/-- `MapType.get(name)` / `mapping[name]` on a tag: KeyError for a missing entry -/
+def Tag.get (t : Tag Str) (name : Str) : PyM Str :=
+  if name = tagKeyName then (match t.key with | some k => .ok k | none => .error .keyError)
+  else if name = tagValueName then (match t.value with | some v => .ok v | none => .error .keyError)
+  else .error .keyError
 
 /-- split at the first occurrence of `sep`: `(before, after)` -/
 def splitFirst (sep : Nat) : Str → Option (Str × Str)
